@@ -422,6 +422,28 @@ func c11Execute(c *core.Ctx, sc *C11Scenario, sh gen.Shape, data, pre gen.Data, 
 	if err := w.Close(); err != nil {
 		return nil, nil, core.Violate("C11/write-error/close", "%v", err)
 	}
+	// the sources must come out of WriteRowGroup as they went in: file-backed row
+	// groups still read and seek as before (the row path only reads them)
+	if sc.Source == "file" || sc.Source == "multi" {
+		for si, src := range sources {
+			rows, v := drainRows(src.Rows())
+			if v != nil {
+				v.Class = "C11/source-damaged/" + sc.Source
+				v.Detail = fmt.Sprintf("source %d no longer reads after WriteRowGroup: %s", si, v.Detail)
+				return nil, nil, v
+			}
+			if int64(len(rows)) != src.NumRows() {
+				return nil, nil, core.Violate("C11/source-damaged/"+sc.Source, "source %d delivers %d of %d rows after WriteRowGroup", si, len(rows), src.NumRows())
+			}
+			if sc.Source == "file" {
+				if v := c11PageStarts(src, rows, sc.Source); v != nil {
+					v.Class = "C11/source-damaged/" + sc.Source
+					v.Detail = fmt.Sprintf("source %d after WriteRowGroup: %s", si, v.Detail)
+					return nil, nil, v
+				}
+			}
+		}
+	}
 	o := &c11Output{bytes: sink.Bytes(), meta: map[int]map[chunkMeta]bool{}}
 	o.copied = parquet.VerifCopyPathCount() - c0
 	o.reenc = parquet.VerifReencodePathCount() - r0
